@@ -19,8 +19,8 @@ CHECKS.update({
          'window onto reference memory map for all window values', '6 C03',
          'line placement concrete within 0..24 (symbolic in one family), window values symbolic; trusted: z3, proxies, reference memory map'),
  'C04': ('PIPE: k<=4 byte-producing lines each placed by a symbolic .org; z3 decides rejected <=> some pair of address ranges '
-         'intersects, over every relative order (real sort + overlap scan run on proxies)', '6 C04',
-         'line kinds and source orders enumerated; addresses 0..40 symbolic; zero-length lines occupy nothing'),
+         'intersects, over every relative order (real sort + overlap scan run on proxies); on pair / predefined-block shapes also that every byte of an accepted program is in the image at its own address', '6 C04',
+         'line kinds and source orders enumerated; addresses 0..40 symbolic (0..9 on image-level shapes); zero-length lines occupy nothing'),
  'C05': ('UNIT on MemoryZone/MemoryZoneManager with symbolic bounds at 6 address widths + PIPE zone layouts with symbolic zone '
          'bounds, origins, fill lengths; z3 decides accepted => every byte inside zone and GLOBAL, rejected => justified, '
          'addresses as if stretches were concatenated', '6 C05',
@@ -32,7 +32,7 @@ CHECKS.update({
 CHECKS.update({
  'C07': ('UNIT: real parse_expression + ExpressionNode evaluation on proxies for enumerated operator trees rendered with minimal '
          'parentheses; every label leaf symbolic; z3 decides value == exact rational reference truncated toward zero', '6 C07',
-         'trees with <= 2 (quick) / 3 (thorough) binary operators enumerated; leaves |v| <= 2^16 (2^7 with division); literal spellings and malformed texts from catalogues'),
+         'trees with <= 2 (quick) / 3 (thorough) binary operators enumerated; leaves |v| <= 2^16 (2^7 with division); literal spellings and malformed texts from catalogues; history shapes parse layout neighbours first'),
 })
 CHECKS.update({
  'C08': ('PIPE: whole real assembler on directive sequences whose #if/#elif operands are symbolic integers (one stub: the condition '
@@ -67,8 +67,8 @@ CHECKS.update({
          'all five operators + numeric well-formedness with symbolic values; z3 decides rejected <=> stated condition; corruption catalogue', '6 C19',
          'packaging.version parsing trusted; a text comparison of versions is forked over a catalogue of version texts; corruptions enumerated'),
  'C20': ('STR: the real generators run on a vocabulary catalogue; each emitted classification pattern is translated to a z3 regular '
-         'expression; z3 decides that no identifier (symbolic string, length <= 12) outside the vocabulary is classified; files parsed for well-formedness', '6 C20',
-         'regex subset (literals, |, groups, (?i), \\b, ., escapes, 1-char look-behind); Python re replays counterexamples in place of Oniguruma'),
+         'expression; z3 decides that no identifier (symbolic string, length <= 12) outside the vocabulary is classified and that, in the flattened grammar contexts of both editors, no earlier rule claims a register in operand position or a mnemonic / macro name at statement start; files parsed for well-formedness', '6 C20',
+         'regex subset (literals, classes, quantifiers, |, groups, (?i), \\b, ^ $, edge look-arounds); each translated pattern compared with Python re on the vocabulary; Python re replays counterexamples in place of Oniguruma'),
 })
 NA = {
 }
